@@ -74,6 +74,33 @@ def record(tw, rng, n_chains, stats):
         stats["chains"] = stats.get("chains", 0) + 1
         if not close and 1e-9 < pa < pb < 1 - 1e-9:
             stats["nontrivial"].add((round(pa, 12), round(pb, 12), M1, M2, t0))
+    # a composition that is itself the RESULT of a conversion is converted back under ANOTHER mixture (a feed specification swept
+    # over several mixtures), or after its fraction has been re-assigned: the law holds for the mixture and the value given NOW
+    for _ in range(max(12, n_chains // 10)):
+        def some_mix(tag):
+            if rng.random() < 0.4:
+                c1, c2 = rng.sample(comps, 2)
+                return _mix(c1, c2)
+            return gen.synthetic_mixture(rng, tag, comps=(gen.synthetic_component(rng, tag + "1", mass=gen.logu(rng, 1.0, 1000.0)),
+                                                          gen.synthetic_component(rng, tag + "2", mass=gen.logu(rng, 1.0, 1000.0))))
+        mix_a = some_mix("FA")
+        same = rng.random() < 0.4
+        mix_b = mix_a if same else some_mix("FB")
+        t0 = gen.tstr(rng, rng.choice(["weight", "molar"]))
+        other = "molar" if t0 == "weight" else "weight"
+        o = pv.Composition(p=rng.uniform(0.02, 0.98), type=t0)
+        try:
+            mid = o.to_molar(mix_a) if other == "molar" else o.to_weight(mix_a)
+            edited = same or rng.random() < 0.3
+            if edited:
+                mid.p = rng.uniform(0.02, 0.98)
+            src = comp_state(mid)
+            out = mid.to_molar(mix_b) if t0 == "molar" else mid.to_weight(mix_b)
+            tw.add([{"ev": "Foreign", "src": src, "to": t0, "out": comp_state(out), "edited": edited, "same_mixture": same, "raised": False,
+                     "M1": float(mix_b.first_component.molecular_weight), "M2": float(mix_b.second_component.molecular_weight)}])
+        except Exception:  # noqa: BLE001
+            z = {"p": 0.0, "type": "", "first": 0.0, "second": 0.0}
+            tw.add([{"ev": "Foreign", "src": z, "to": t0, "out": z, "edited": False, "same_mixture": same, "raised": True, "M1": 1.0, "M2": 1.0}])
     # rejection table: construction outside [0,1] must raise, inside must not - also after other parts of the library have been used
     # in this process (here: a small VLE fit)
     if rng.random() < 0.5:
